@@ -6,7 +6,7 @@
    are re-proved against the current source each time.  [carries_ref], [appropriate], [known_row]
    are the hand-written specification C07/Spec.v. *)
 From Coq Require Import String.
-From FB Require Import C07.Model C07.Spec C07.Theory.
+From FB Require Import C07.Model C07.Spec C07.Theory C07.WithC06.
 
 (* Th 1: every position that carries a class / field / method reference is rebuilt with the
    remapper method appropriate for it (outside the rows recorded as known findings) *)
@@ -73,3 +73,31 @@ Print Assumptions C07_class_suffix.
 Theorem C07_answers : answers_stmt.
 Proof. exact answers. Qed.
 Print Assumptions C07_answers.
+
+(* the entry loop: without colliding names the remapped jar lists the entries in input order under
+   their remapped names; an error in any name or content fails the call *)
+Theorem C07_entries_in_order :
+  forall (A B : Type) (R : remapper) (f : str -> A -> res B) (es : list (str * A)) (l : list (str * B)),
+    entries_spec R f es = Ok l -> NoDup (map fst l) -> remap_entries R f es = Ok l.
+Proof. exact entries_in_order. Qed.
+Print Assumptions C07_entries_in_order.
+
+Theorem C07_entries_err :
+  forall (A B : Type) (R : remapper) (f : str -> A -> res B) (es : list (str * A)),
+    entries_spec R f es = Err -> remap_entries R f es = Err.
+Proof. exact entries_err. Qed.
+Print Assumptions C07_entries_err.
+
+(* Th 5, composed with C06: for quill's own remapper (C06's model of BRemapperImpl over a mapping
+   tree and a super-class provider) a jar position becomes: the class row's name; the descriptor
+   with every class name mapped, type by type; for a member, the row of the first type in the
+   depth-first pre-order of the owner's super types that declares it, else the old name with the
+   descriptor rewritten *)
+Theorem C07_composes_with_C06 : c06_positions.
+Proof. exact c06_positions_hold. Qed.
+Print Assumptions C07_composes_with_C06.
+
+(* non-vacuity *)
+Theorem C07_examples : nonvacuous.
+Proof. exact nonvacuous_holds. Qed.
+Print Assumptions C07_examples.
